@@ -17,6 +17,8 @@
 #include "Store.h"
 #include "StrList.h"
 
+#include <limits>
+
 /*
  *    Currently only byte ranges are supported
  *
@@ -60,6 +62,21 @@ HttpHdrRangeSpec::Create(const char *field, int flen)
     return new HttpHdrRangeSpec(spec);
 }
 
+/// Parses 1*DIGIT occupying exactly [start, end): no leading whitespace,
+/// no sign, no trailing garbage, no int64_t overflow.
+static bool
+parseBytePos(const char * const start, const char * const end, int64_t &value)
+{
+    if (start >= end || !xisdigit(*start))
+        return false;
+
+    char *parsedEnd = nullptr;
+    if (!httpHeaderParseOffset(start, &value, &parsedEnd) || parsedEnd != end)
+        return false;
+
+    return known_spec(value);
+}
+
 bool
 HttpHdrRangeSpec::parseInit(const char *field, int flen)
 {
@@ -68,9 +85,11 @@ HttpHdrRangeSpec::parseInit(const char *field, int flen)
     if (flen < 2)
         return false;
 
+    const auto fieldEnd = field + flen;
+
     /* is it a suffix-byte-range-spec ? */
     if (*field == '-') {
-        if (!httpHeaderParseOffset(field + 1, &length) || !known_spec(length))
+        if (!parseBytePos(field + 1, fieldEnd, length))
             return false;
     } else
         /* must have a '-' somewhere in _this_ field */
@@ -78,7 +97,7 @@ HttpHdrRangeSpec::parseInit(const char *field, int flen)
             debugs(64, 2, "invalid (missing '-') range-spec near: '" << field << "'");
             return false;
         } else {
-            if (!httpHeaderParseOffset(field, &offset) || !known_spec(offset))
+            if (!parseBytePos(field, p, offset))
                 return false;
 
             ++p;
@@ -87,7 +106,7 @@ HttpHdrRangeSpec::parseInit(const char *field, int flen)
             if (p - field < flen) {
                 int64_t last_pos;
 
-                if (!httpHeaderParseOffset(p, &last_pos) || !known_spec(last_pos))
+                if (!parseBytePos(p, fieldEnd, last_pos))
                     return false;
 
                 // RFC 2616 s14.35.1 MUST: last-byte-pos >= first-byte-pos
@@ -95,6 +114,12 @@ HttpHdrRangeSpec::parseInit(const char *field, int flen)
                     debugs(64, 2, "invalid (last-byte-pos < first-byte-pos) range-spec near: " << field);
                     return false;
                 }
+
+                // No representation has a byte at position INT64_MAX (lengths
+                // are int64_t), so this does not change the requested bytes but
+                // keeps last_pos + 1 below from overflowing.
+                if (last_pos == std::numeric_limits<int64_t>::max())
+                    --last_pos;
 
                 HttpHdrRangeSpec::HttpRange aSpec (offset, last_pos + 1);
 
